@@ -39,6 +39,10 @@
 #include <unifex/via.hpp>
 #include <unifex/when_all.hpp>
 #include <unifex/when_any.hpp>
+#include <unifex/when_all_range.hpp>
+#include <unifex/nest.hpp>
+#include <unifex/sync_wait.hpp>
+#include <unifex/v2/async_scope.hpp>
 #include <unifex/with_allocator.hpp>
 #include <unifex/with_query_value.hpp>
 
@@ -70,6 +74,7 @@ struct Outcome {          // what a run produced, for oracles / differential com
   std::string order;      // relative order and contexts of leaf starts / completions and of the root completion (C20 digest)
   int steps = 0; int stops_while_running = 0; int storage_switches = 0; bool fault_fired = false;
   int leaves_started = 0; bool had_deferred = false; bool nonvalue_leaf = false;
+  std::map<long, long> allocate_started;   // model: allocator id -> allocate() nodes started with it visible
 };
 
 struct RunCtl {
@@ -91,6 +96,9 @@ struct RunState {   // shared between Root, runner and driver (type-erased part)
   sr::HStopSource hstop;
   unifex::inplace_stop_source* inplace = nullptr;
   sr::AllocLedger ledger;
+  sr::AllocLedger ledger_n[2];        // allocators #2 and #3 (with_allocator nodes)
+  unifex::v2::async_scope* scope = nullptr;          // open scope for nest() nodes, created on first use, joined after the run
+  unifex::v2::async_scope* closed_scope = nullptr;   // a scope whose join has already completed
   bool use_inplace = false;
   std::function<void()> destroy_op;
   bool op_alive = false;
@@ -153,7 +161,26 @@ struct Env {
   WAFn wafn(int nid) const { return {nid}; }
   OptFn optfn(int nid) const { return {nid}; }
   IVFn ivfn(int nid) const { return {nid}; }
-  sr::CountingAlloc<std::byte> alloc(int) const { return sr::CountingAlloc<std::byte>(&run_state()->ledger); }
+  sr::CountingAlloc<std::byte> alloc(int id) const {
+    RunState& rs = *run_state();
+    if (id == 2 || id == 3) { rs.ledger_n[id - 2].id = id; return sr::CountingAlloc<std::byte>(&rs.ledger_n[id - 2]); }
+    return sr::CountingAlloc<std::byte>(&rs.ledger);
+  }
+  // when_all_range: a vector of senders of one type
+  template <class S, class... Ss> std::vector<S> vec(S s, Ss... ss) const { std::vector<S> v; v.reserve(1 + sizeof...(Ss)); v.push_back(std::move(s)); (v.push_back(std::move(ss)), ...); return v; }
+  std::vector<sr::Leaf<T>> vec0() const { return {}; }
+  struct WarFn { int nid; T operator()(std::vector<T> v) const { uint64_t acc = (uint64_t)nid; for (auto& x : v) acc = sr::mix(acc, x.read()); return T(acc); } };
+  WarFn warfn(int nid) const { return {nid}; }
+  unifex::v2::async_scope& scope() const {
+    RunState& rs = *run_state();
+    if (!rs.scope) rs.scope = new unifex::v2::async_scope();
+    return *rs.scope;
+  }
+  unifex::v2::async_scope& closed_scope() const {
+    RunState& rs = *run_state();
+    if (!rs.closed_scope) { rs.closed_scope = new unifex::v2::async_scope(); unifex::sync_wait(rs.closed_scope->join()); }
+    return *rs.closed_scope;
+  }
 };
 
 // ------------------------------------------------------------------ root receiver
@@ -199,6 +226,21 @@ void drive(const ShapeDesc& sd, RunCtl& ctl, RunState& rs, const std::function<v
 void begin_run(const ShapeDesc& sd, RunCtl& ctl, RunState& rs);
 void end_run(const ShapeDesc& sd, RunCtl& ctl, RunState& rs);
 
+// the harness-owned scopes: once the operation state (and with it every nest sender / nest operation) is gone, nothing may
+// still hold a reference on the scope (C08: join completes once all nested work has finished or been discarded)
+inline void finish_scopes(const ShapeDesc& sd, RunState& rs) {
+  if (rs.closed_scope) {
+    if (rs.closed_scope->use_count() != 0 || !rs.closed_scope->joined()) SR_FAIL("C08", "closed_scope_count", "a scope that had been joined before nest() was called has use_count()=%zu after the run [%s]", rs.closed_scope->use_count(), sd.text);
+    else delete rs.closed_scope;   // (leaked on failure: its destructor would assert)
+    rs.closed_scope = nullptr;
+  }
+  if (rs.scope) {
+    if (rs.scope->use_count() != 0) SR_FAIL("C08", "scope_reference_leak", "the operation state and every nest() sender are destroyed but the scope still counts %zu outstanding operation(s): join() would never complete [%s]", rs.scope->use_count(), sd.text);
+    else { unifex::sync_wait(rs.scope->join()); delete rs.scope; }
+    rs.scope = nullptr;
+  }
+}
+
 template <class C, class Make>
 void run_shape_impl(const ShapeDesc& sd, RunCtl& ctl, Make make) {
   RunState rs;
@@ -233,6 +275,7 @@ void run_shape_impl(const ShapeDesc& sd, RunCtl& ctl, Make make) {
   } else {
     std::free(buf);
   }
+  finish_scopes(sd, rs);
   end_run(sd, ctl, rs);
   run_state() = nullptr;
 }
